@@ -91,7 +91,24 @@ def run_scenarios(run, scs, tag):
     client = vlib.harness_build("harness_client", ["zvt_verif_harness_client"])["zvt_verif_harness_client"]
     cases = [s.line() for s in scs]
     mo = vlib.run_sharded(drv, cases, run.workdir, tag + "_model")
-    io = vlib.run_sharded(client, cases, run.workdir, tag + "_impl")
+    # the implementation, with recovery from cases on which it never returns (a busy loop that lets no virtual time pass is cut
+    # by the harness' real-time watchdog): such a case is answered "Hang", the others are run again without it
+    pending, answers, hangs = list(range(len(cases))), {}, 0
+    while pending:
+        try:
+            outs = vlib.run_sharded(client, [cases[k] for k in pending], run.workdir, tag + "_impl")
+            answers.update(zip(pending, outs))
+            break
+        except vlib.HangFound as h:
+            k = next((k for k in pending if cases[k] == h.case), pending[0])
+            answers[k] = "Hang (no result within the real-time watchdog: the call spins without letting time pass)"
+            pending.remove(k)
+            hangs += 1
+            if hangs >= 6:
+                for k in pending:
+                    answers[k] = "NotRun (after 6 hangs)"
+                break
+    io = [answers[k] for k in range(len(cases))]
     # the extracted client model against Coq's own evaluator on a sample of these histories (trusted base)
     from .. import vmcheck
     vmcheck.client_crosscheck(run, cases, mo, limit=(96 if run.tier == "thorough" else 24))
